@@ -335,7 +335,11 @@ pub fn split(c: &mut Choices, prog: &Program, nfiles: usize) -> Split
 			.filter(|(a, _)| *a == f)
 			.map(|(_, b)| format!("m{}.pn", b))
 			.collect();
-		// import position is free; put them first (the printer does)
+		// an import may stand anywhere among the declarations of a file
+		if !p.imports.is_empty() && c.chance(1, 3)
+		{
+			p.imports_after = c.draw(p.order.len() + 1);
+		}
 		files.push((format!("m{}.pn", f), p));
 	}
 	// a file must not be empty (E101): give empty files one private constant
